@@ -14,6 +14,11 @@ CHECKS = {
             "DESIGN.md 3.5, 6 (C17)",
             "trusted: TLC, the run-length encoding of returned bytes (byte i = i mod 251), patching waitress.buffers.STRBUF_LIMIT for the scaled part; prune() outside the quantifier",
             "TLA+ model (Buffer.tla) checked by TLC + batch trace validation of real-code histories by TLC"),
+    "C14": (MC,
+            "TLC explores every interleaving of handler threads, submitters, resizes and shutdown (critical-section atomicity, which is the code's: all pool state is touched under one lock) over a set of scripted + seeded scenarios and checks exactly-once, accounting, FIFO hand-over, convergence, no stranded task (and termination under fairness in the thorough tier). The real ThreadedTaskDispatcher runs the same scenarios under a deterministic scheduler with pre-emption at every lock/condition operation and every access to queue/threads/stop_count/active_count (bounded DFS + PCT walks); TLC validates each recorded schedule twice: as a behaviour of the model (post-state of every critical section) and against the property monitor.",
+            "DESIGN.md 3.8, 6 (C14)",
+            "trusted: TLC; the scheduler shim of threading (Lock/Condition semantics, FIFO notify); timed waits fire when the scheduler says so; schedule exhaustiveness on the code is bounded (pre-emption bound 2), unbounded only on the model",
+            "TLA+ model (DispatcherOps.tla) model-checked by TLC + trace validation of real-code schedules (deterministic scheduler) by TLC"),
 }
 
 NA_REASON = "check not built yet (work in progress; see DESIGN.md section 6 for the planned TLA+ specification)"
